@@ -91,6 +91,11 @@ CHECKS = {
           "Corpora of 3-40 documents without deletions (text field under 5 analyzers, keyword field, vocabulary sharing prefixes and a dense family for the scan-cap stratum) are committed under 2-4 segment layouts and asked completion requests (single-word prefixes of length 0-5, size 1..10, optional fuzzy options): every option must be an indexed term matching the analyzed prefix (or within the edit distance and sharing prefix_length characters), unique, sorted by (score desc, text asc), at most size; doc_freq must equal the number of indexed documents containing the term; below the scan cap the options must be the head of the covering-size list, which must hold exactly the eligible terms; answers must be identical across layouts, repeated calls and fresh readers.",
           "Trusted: the crate's analyzers for tokenisation (index terms and the analyzed prefix), harness Levenshtein. At or above the scan cap only soundness (term validity, ordering, doc_freq upper bound) is judged.",
           "DESIGN.md §5 C22"),
+  "C26": ("exploration",
+          "property-based testing of the C ABI with guarded buffers (canary regions, every capacity in the thorough tier) in a supervised child process",
+          "Indexes driven only through the C API (searchlite_index_open / add_json / commit / search): queries as plain text, JSON nodes and raw bytes incl. invalid UTF-8, limits 0..6, garbage and real cursors, valid/invalid aggregation JSON. The output buffer sits between two 64-byte canaries in an allocation pre-filled with 0xAA; for 40 sampled capacities plus the boundary ones (quick) or every capacity from 0 to full length + 16 (half of the thorough cases) the call must leave canaries and every byte at index >= buf_cap untouched, return ret <= buf_cap-1 with a NUL at ret and none before, write a prefix of the full response, leave a zero-capacity buffer alone; null handle/query/buffer return 0 and write nothing; failing searches return 0 and write nothing; null arguments to add/commit return negative status. A crash of the process (null dereference, abort) is caught by the supervisor and traced to the call in flight.",
+          "Trusted: the guarded allocation; writes further than 64 bytes outside the buffer that hit unrelated memory without crashing would go unnoticed (no ASan build in this tier).",
+          "DESIGN.md §5 C26"),
   "C30": ("exploration",
           "metamorphic property-based testing (composite page walk vs unpaged request), after_key handed back as value and through JSON text",
           "Corpora of 3-40 documents (keyword and f64/i64 fast fields, multi-valued, missing, fractional/negative/extreme values) over 1-3 segments with deletions and optional filter; composite aggregations of 1-3 sources (terms, histogram with fractional intervals) with optional sub-aggregation and page size 1..5. The concatenated pages must equal the unpaged buckets (keys, order, counts, sub-aggregations), every page but the last must be full with after_key == its last key, and the last page must carry no after_key; half of the cases send after_key back through JSON text exactly as an HTTP/CLI/FFI client does.",
